@@ -230,8 +230,12 @@ def ev_cov(case, rec):
             vcv = np.array(m, dtype=float)
             col = vcv.shape == (3, 1)
             args = [z, e, n, False if h is None else h, vcv]
+            vb = vcv.tobytes()
             st, r = rec.call(fn, *args)
             co = {'dir': direction, 'column': col, 'pt': case['pt']}
+            if vcv.tobytes() != vb:
+                rec.fail('the transformation modified the covariance array supplied by the caller', site='transform:mga:vcv-argument',
+                         observed=vcv, expected=m, case=one, coords=co)
             if st != 'ok':
                 rec.fail('transformation raised when a %s local covariance was supplied' % ('3x1 column' if col else '3x3'),
                          site='transform:mga:vcv:%s' % ('column' if col else 'matrix'), observed=r, case=one, coords=co)
